@@ -455,10 +455,25 @@ def batcher_rule(ctx, triggers=False):
             ctx.viol('%s|fixed-trigger' % enq.path, enq.at, 'Fixed mode must flush exactly when buffer.len() >= n (table: %s)' % shown.get('Fixed'), None)
         if not any(has_len(c) and len_rel_ok(c) for c in ad):
             ctx.viol('%s|adaptive-size-trigger' % enq.path, enq.at, 'Adaptive mode must flush when buffer.len() >= n (table: %s)' % shown.get('Adaptive'), None)
-        if not any(any(a[0] in ('bool', 'cmp') and ('elapsed' in str(a[1]) or 'elapsed' in str(a[2] if len(a) > 2 else '')) for a in c) for c in ad):
+        def age_atom(a):
+            # the age of the buffer since `last_send`: `last_send.elapsed()` or `now.duration_since(last_send)` - any form
+            txt = str(a[1]) + ' ' + (str(a[2]) if len(a) > 2 else '')
+            return a[0] in ('bool', 'cmp') and 'last_send' in txt and ('elapsed' in txt or 'duration_since' in txt or 'Sub(' in txt)
+        if not any(any(age_atom(a) for a in c) for c in ad):
             ctx.viol('%s|adaptive-timeout-trigger' % enq.path, enq.at,
                      'Adaptive mode lost its timeout trigger (last_send.elapsed() > max_delay): a slow stream would be withheld '
                      'until the batch fills (table: %s)' % shown.get('Adaptive'), None)
+        # `last_send` is the time of the last FLUSH: it may be written only where the buffer is shipped (flush itself, or a path of
+        # enqueue that sends).  Refreshing it on every enqueued message turns the age test into an idle-gap test: a steady trickle
+        # slower than n per max_delay is then withheld until the stream pauses or ends.
+        ships = [sb for sb, _ in sends] + [sb for sb, _ in q.calls(enq, FLUSH)]
+        for wb, si, fld, ws in q.self_writes(enq, 'last_send'):
+            on_send_path = any(enq.dominates(sb, wb) or enq.post_dominates(sb, wb) for sb in ships)
+            ctx.inst('Batcher::enqueue|last_send write|%s' % ws['at'], {'on a sending path': bool(on_send_path)})
+            if not on_send_path:
+                ctx.viol('%s|last-send-refreshed' % enq.path, ws['at'],
+                         'Batcher::enqueue updates `last_send` on a path that does not ship the buffer: the Adaptive age test then measures the gap '
+                         'between two messages, not the age of the oldest buffered one, and a slow steady stream is withheld indefinitely', None)
         single_sends = [t for bi, t in sends if q.cond_has(q.cond_of_block(facts, enq, bi), lambda a: a[0] == 'is' and a[2] == 'Single')]
         if not single_sends:
             ctx.viol('%s|single' % enq.path, enq.at, 'Single mode does not send the element immediately', None)
